@@ -204,13 +204,15 @@ theorem goodman_closed_form_monotone_continuous (M M2 : ℝ) (h0 : 0 ≤ M2) (h2
 
 /-! ### 3. Arbitrary diagrams -/
 
-/-- Full statement (open): for every gap-free diagram `D` with exactly one segment `(1, ∞]` beyond R = 1 and
-every admissible `g₁ g₂ c` under the guards: `transform D g₂ (transform D g₁ c) = transform D g₂ c`.
+/-- SUPERSEDED (kept as a lemma, not listed in the harness `THEOREMS`): the full statement - for every gap-free
+diagram `D` with exactly one segment `(1, ∞]` beyond R = 1 and every admissible `g₁ g₂ c` under the guards,
+`transform D g₂ (transform D g₁ c) = transform D g₂ c` - is `transform_path_independent` in Proofs/C12General.lean,
+where the potential is constructed (`stdDiagram_has_potential`) and arrival is proved (`transform_arrives`).
 Proved here under two extra hypotheses: an iso-damage potential `h` of `D` exists (`Compat`; for a gap-free diagram
 it is the continuous piecewise function `k_i·(1 + M_i·x)`), and the runs arrive at their target R
 (`arrive`; proved for FKM-Goodman above, by the order analysis of the segments).  Missing: the construction of `h`
-and the arrival proof for a general segment list (in particular for the five-segment diagram, where both are
-checked by the correspondence and the oracle only). -/
+and the arrival proof for a general segment list - both are supplied by Proofs/C12General.lean (also for the
+five-segment diagram: `fiveSegment_path_independent`). -/
 theorem transform_path_independent_partial (h : ℝ → ℝ) (D : List (Seg ℝ)) (g₁ g₂ : ExtR ℝ) (c : Cyc ℝ)
     (hc1 : Compat h D g₁) (hc2 : Compat h D g₂) (hpos : ∀ x, 0 < h x)
     (arrive : ∀ g c', (g = g₁ ∨ g = g₂) → (transform D g c').R = g)
@@ -229,7 +231,9 @@ theorem transform_path_independent_partial (h : ℝ → ℝ) (D : List (Seg ℝ)
     cases hy : transform D g₂ c with
     | mk a' R' => rw [hx] at r12 this; rw [hy] at r2 this; simp_all
 
-/-- Idempotence and "a cycle at the target is unchanged" for an arbitrary diagram, same extra hypotheses. -/
+/-- Idempotence and "a cycle at the target is unchanged" for an arbitrary diagram, same extra hypotheses.
+SUPERSEDED by `transform_fixes_target` / `transform_idempotent` in Proofs/C12General.lean (not listed in the harness
+`THEOREMS`). -/
 theorem transform_fixes_target_partial (h : ℝ → ℝ) (D : List (Seg ℝ)) (c : Cyc ℝ)
     (hc : Compat h D c.R) (hpos : ∀ x, 0 < h x) (arrive : (transform D c.R c).R = c.R)
     (hG' : TransformGuard D c.R c) : transform D c.R c = c := by
